@@ -10,9 +10,15 @@ TRAPS = {-1: "integer divide by zero", -2: "integer overflow", -3: "invalid conv
 
 # per-tier harness parameters: (classes, crossed-core budget, random tuples, constant-mode calls, exhaustive 8-bit lanes)
 TIERS = {
-    "quick": dict(classes="int,float,simd,simdf", budget=120, rand=24, const=16, ext=70, ex8=False),
-    "thorough": dict(classes="int,float,simd,simdf", budget=1200, rand=1500, const=200, ext=0, ex8=True),
+    "quick": dict(classes="int,float,simd,simdf", budget=120, rand=24, const=16, ext=70, ex8=False, combo=300, combocalls=8, famcap=90),
+    "thorough": dict(classes="int,float,simd,simdf", budget=1200, rand=1500, const=200, ext=0, ex8=True, combo=3000, combocalls=24, famcap=0),
 }
+
+
+def where(sc):
+    """label of one observation: engine/mode, plus the combo function it was made in"""
+    s, combo = sc
+    return "%s/%s" % SLOTS[s] + (" in " + combo if combo else "")
 
 
 def fmt_obs(o):
@@ -69,13 +75,14 @@ def run(tier, seed):
     if not binp:
         ck.violation("harness-build", {"kind": "build"}, {"log": log[-3000:]}, no_input=True)
         return ck.finish()
-    cmd = [binp, "-seed", str(seed), "-classes", t["classes"], "-budget", str(t["budget"]), "-rand", str(t["rand"]), "-const", str(t["const"]), "-ext", str(t["ext"])]
+    cmd = [binp, "-seed", str(seed), "-classes", t["classes"], "-budget", str(t["budget"]), "-rand", str(t["rand"]), "-const", str(t["const"]), "-ext", str(t["ext"]),
+           "-combo", str(t["combo"]), "-combocalls", str(t["combocalls"]), "-famcap", str(t["famcap"])]
     if t["ex8"]:
         cmd.append("-ex8")
     t0 = time.time()
     rc, out = sh(cmd, timeout=3000)
     ck.note("harness: %.1fs" % (time.time() - t0))
-    fails, groups, names = [], {}, {}
+    fails, groups, names, combos = [], {}, {}, {}
     for ln in out.split("\n"):
         if not ln.startswith("{"):
             continue
@@ -86,12 +93,22 @@ def run(tier, seed):
         key = (d["op"], d["imm"], tuple(d["a"]))
         names[d["op"]] = d["n"]
         g = groups.setdefault(key, {})
+        combo = d.get("combo", "")
+        if combo:
+            combos[combo] = combos.get(combo, 0) + 1
         for slot, o in enumerate(d["r"]):
             if o is not None:
-                g.setdefault(o, set()).add(slot)
-    if rc != 0 or not groups or fails:
+                g.setdefault(o, set()).add((slot, combo))
+    if rc != 0 or not groups:
         ck.violation("harness-crash", {"kind": "crash"}, {"rc": rc, "fails": fails, "tail": out[-2000:]}, no_input=False)
         return ck.finish()
+    # a batch module (valid: the other engine or the other batches run it) that an engine cannot compile / instantiate
+    for eng in ("interp", "compiler"):
+        fl = [f for f in fails if f.startswith(eng)]
+        if fl:
+            ck.violation("module-compile-failure", {"kind": "module-compile-failure", "engine": eng},
+                         {"failures": fl, "note": "the batched module of single-instruction and combo functions failed to compile or instantiate on this engine; "
+                                                  "the observations of the remaining modules are still compared below"})
     keys = list(groups.keys())
     obs_lists = [sorted(groups[k].keys()) for k in keys]
     ck.cases = sum(len(s) for g in groups.values() for s in g.values())
@@ -102,16 +119,24 @@ def run(tier, seed):
         for o, ss in g.items():
             if o < 0:
                 traps[TRAPS.get(o, str(o))] = traps.get(TRAPS.get(o, str(o)), 0) + 1
-            for s in ss:
-                nm = "%s/%s" % SLOTS[s]
+            for s, combo in ss:
+                nm = "%s/%s" % SLOTS[s] + ("/combo" if combo else "")
                 slots[nm] = slots.get(nm, 0) + 1
-    ck.dist = {"operations": len(per_op), "tuples_per_op": per_op, "trap_outcomes": traps, "observations_per_engine_mode": slots}
-    ck.samples = [dict(op=names[k[0]], imm=k[1], args=[hex(a) for a in k[2]], observed={fmt_obs(o): ["%s/%s" % SLOTS[s] for s in sorted(ss)] for o, ss in groups[k].items()})
+    fams = {}
+    for cname in combos:
+        fams[cname.split(":")[0]] = fams.get(cname.split(":")[0], 0) + 1
+    ck.dist = {"operations": len(per_op), "tuples_per_op": per_op, "trap_outcomes": traps, "observations_per_engine_mode": slots,
+               "combo_functions": len(combos), "combo_functions_per_family": fams}
+    ck.samples = [dict(op=names[k[0]], imm=k[1], args=[hex(a) for a in k[2]], observed={fmt_obs(o): [where(sc) for sc in sorted(ss)] for o, ss in groups[k].items()})
                   for k in keys[:: max(1, len(keys) // 6)][:6]]
     ck.extra["rule"] = ("one exported function per (opcode, immediate, operand mode: parameters / constants / memory loads), both engines; operands: crossed boundary sets "
                         "(powers of two +-1, sign boundaries, shift counts 0..2*width, every float class, conversion and truncation boundaries, halves) plus random values from "
                         "VERIF_SEED; every distinct (op, imm, operands) tuple is evaluated once by vm_compute on the specification and compared with all observations "
-                        "(bit-exact; NaN by class); distinct = distinct (op, imm, operands) tuples")
+                        "(bit-exact; NaN by class); distinct = distinct (op, imm, operands) tuples. Besides the single-instruction functions, 'combo' functions hold two or "
+                        "three different instructions in one body (all unordered pairs - a seed-dependent sample of them in the quick tier - within each family sharing lowering "
+                        "helpers or per-function backend state: vector shifts, saturating/min/max/avgr, extend/narrow/extmul, float min/max/pmin/pmax, sign ops, roundings, "
+                        "trunc/trunc_sat, conversions, div/rem, scalar shifts/rotates, compares, constant-pool users, lane ops; plus random cross-family pairs and triples) "
+                        "and return all results; every component is compared with the specification like a single instruction")
     # ---- evaluate the specification inside Coq, shards in parallel ----
     rows = [coq_case(k[0], k[1], k[2], ol) for k, ol in zip(keys, obs_lists)]
     # shards interleave the rows so that cheap (integer) and expensive (f64 div, vector) cases are spread evenly
@@ -134,17 +159,17 @@ def run(tier, seed):
     for idx, j in mism:
         k = keys[idx]
         o = obs_lists[idx][j]
-        for s in sorted(groups[k][o]):
+        for s, combo in sorted(groups[k][o]):
             eng, mode = SLOTS[s]
-            rk = (names[k[0]], eng)
+            rk = (names[k[0]], eng, "combo" if combo else "single")
             reported[rk] = reported.get(rk, 0) + 1
             if reported[rk] > 2 or len(reported) > 40:
                 continue
-            todo.append((k, o, eng, mode))
+            todo.append((k, o, eng, mode, combo))
     # what the specification prescribes for the reported tuples (printed by Coq, attached to the replay file)
     expected = {}
     if todo:
-        uniq = sorted({k for k, _, _, _ in todo})
+        uniq = sorted({t[0] for t in todo})
         v = ("From Verif Require Import Wasm.NumericsOps.\nFrom Coq Require Import ZArith List.\nImport ListNotations.\nOpen Scope Z_scope.\n"
              + "".join("Definition E%d := Eval vm_compute in spec_op %d %d [%s].\nPrint E%d.\n" % (i, k[0], k[1], "; ".join(str(a) for a in k[2]), i)
                        for i, k in enumerate(uniq)))
@@ -155,15 +180,17 @@ def run(tier, seed):
                 txt = " ".join(m.group(1).split())
                 txt = re.sub(r"\b(\d{4,})\b", lambda mm: hex(int(mm.group(1))), txt)
                 expected[k] = txt
-    for k, o, eng, mode in todo:
-        sig = {"kind": "numeric-result-differs-from-spec", "op": names[k[0]], "engine": eng}
-        others = {fmt_obs(x): ["%s/%s" % SLOTS[q] for q in sorted(ss)] for x, ss in groups[k].items()}
+    for k, o, eng, mode, combo in todo:
+        # where = "single": wrong in a function holding only this instruction; "combo": wrong inside a function that also holds other instructions
+        sig = {"kind": "numeric-result-differs-from-spec", "op": names[k[0]], "engine": eng, "where": "combo" if combo else "single"}
+        others = {fmt_obs(x): [where(sc) for sc in sorted(ss)] for x, ss in groups[k].items()}
         ck.violation(sig["kind"], sig, {"op": names[k[0]], "opid": k[0], "imm": k[1], "operands": [hex(a) for a in k[2]], "mode": mode,
+                                        "function": combo or "single instruction", "instructions_in_body_order": combo.split(":", 1)[1].split("+") if combo else [names[k[0]]],
                                         "observed": fmt_obs(o), "specified": expected.get(k, "?"), "all_observations": others,
                                         "note": "the specification (coq/Wasm/Numerics*.v, evaluated by vm_compute) does not allow this outcome; "
                                                 "RBits v = exactly v, RTrap 1/2/3 = divide by zero / integer overflow / invalid conversion, "
                                                 "RNan w canon = a NaN (canonical if canon), RLanes = per lane"})
-    ck.extra["mismatching_ops"] = {"%s/%s" % k: v for k, v in reported.items()}
+    ck.extra["mismatching_ops"] = {"%s/%s/%s" % k: v for k, v in reported.items()}
     if not proofs_ok and not ck.violations:
         ck.violation("proof-broken", {"kind": "proof-broken"}, getattr(ck, "proof_failure", {}), no_input=True)
     return ck.finish()
